@@ -819,6 +819,9 @@ def _b_atoms(b, out):
     return out
 
 
+_DEF_ATOMS: dict = {}
+
+
 def _relevant_definitions(bs):
     """Definitions of auxiliary atoms (rnd!k, trunc!k, intconv!k, ...) are kept for the whole job, but a query only gets the
     ones in its cone of influence: a definition speaks about terms that exist on the path that created it (its lowering
@@ -833,10 +836,17 @@ def _relevant_definitions(bs):
             raw = True
         _b_atoms(b, needed)
     info = []
+    cache = _DEF_ATOMS
+    if cache.get('universe') is not U:
+        cache.clear()
+        cache['universe'] = U
     for d in CTX.definitions:
-        at = _b_atoms(d, set())
-        fresh_ = {i for i in at if '!' in U.atoms[i].name}
-        info.append((d, at, fresh_))
+        ent = cache.get(id(d))
+        if ent is None or ent[0] is not d:
+            at = _b_atoms(d, set())
+            ent = (d, at, {i for i in at if '!' in U.atoms[i].name})
+            cache[id(d)] = ent
+        info.append(ent)
     chosen = [False] * len(info)
     changed = True
     while changed:
